@@ -32,7 +32,8 @@ BOGUS_UPPER = ["NOSUCH", "NOSUCH_TOO"]
 PREFIX_POOL = ["CUSTOM_", "CUSTOM_T", "CUSTOM_T_", "HW_", "HW_CPU_X86_AVX", "ZZZ"]
 PROJECTS = ["proj1", "proj2", "proj3"]
 USERS = ["user1", "user2"]
-CTYPES = ["INSTANCE", "MIGRATION", "VOLUME"]
+# "UNKNOWN" and "ALL" are legal type names that collide (up to case) with the alias of "no type" and a keyword of GET /usages
+CTYPES = ["INSTANCE", "MIGRATION", "VOLUME", "UNKNOWN", "ALL"]
 
 DEFAULT_IPROJ = '00000000-0000-0000-0000-000000000000'
 DEFAULT_IUSER = '00000000-0000-0000-0000-000000000000'
